@@ -116,7 +116,8 @@ impl Case {
 #[derive(Clone, Debug)]
 pub enum Obs {
     None(String),
-    Err { status: u16, shape: bool, entered: bool, usable: bool },
+    /// `cls`: the error site, told by the fixed head of the message (Extract.xerr_class)
+    Err { status: u16, shape: bool, entered: bool, usable: bool, cls: u8 },
     Ok { entered: bool, echo: EchoResp, usable: bool },
 }
 
@@ -149,6 +150,28 @@ pub fn error_shape_ok(body: &[u8]) -> bool {
     true
 }
 
+/// which `for_bad_request` site: the fixed head of the message (numbering of
+/// Extract.xerr_class); 0 when there is none
+pub fn error_class(body: &[u8]) -> u8 {
+    let msg = serde_json::from_slice::<Value>(body)
+        .ok()
+        .and_then(|v| v.get("message").and_then(|m| m.as_str()).map(|s| s.to_string()))
+        .unwrap_or_default();
+    const HEADS: &[(&str, u8)] = &[
+        ("bad parameter in URL path: ", 1),
+        ("unable to parse query string: ", 2),
+        ("request body exceeded maximum size", 3),
+        ("invalid content type: ", 4),
+        ("expected content type ", 6),
+        ("unable to parse JSON body: ", 7),
+        ("unable to parse URL-encoded body: ", 8),
+        ("missing content-type header", 9),
+        ("missing boundary in content-type header", 10),
+        ("invalid path encoding", 11),
+    ];
+    HEADS.iter().find(|(h, _)| msg.starts_with(h)).map(|(_, c)| *c).unwrap_or(0)
+}
+
 pub fn g_ri(method: &str, uri: &[u8], marker: &Option<String>, port: u16) -> String {
     format!("(RI {} {} {} {})", g_str(method), g_bytes(uri), g_opt(marker, |m| g_str(m)), port)
 }
@@ -167,8 +190,8 @@ impl Obs {
     pub fn coq(&self) -> String {
         match self {
             Obs::None(_) => "ONone".into(),
-            Obs::Err { status, shape, entered, usable } => {
-                format!("(OErr {} {} {} {})", status, shape, entered, usable)
+            Obs::Err { status, shape, entered, usable, cls } => {
+                format!("(OErr {} {} {} {} {})", status, shape, entered, usable, cls)
             }
             Obs::Ok { entered, echo, usable } => format!("(OOk {} {} {})", entered, g_echo(echo), usable),
         }
@@ -176,8 +199,9 @@ impl Obs {
     pub fn json(&self) -> Value {
         match self {
             Obs::None(why) => json!({"no_response": why}),
-            Obs::Err { status, shape, entered, usable } => {
-                json!({"status": status, "error_shape_ok": shape, "handler_entered": entered, "server_usable": usable})
+            Obs::Err { status, shape, entered, usable, cls } => {
+                json!({"status": status, "error_shape_ok": shape, "handler_entered": entered, "server_usable": usable,
+                       "error_class": cls})
             }
             Obs::Ok { entered, echo, usable } => {
                 json!({"status": 200, "handler_entered": entered, "server_usable": usable,
@@ -197,7 +221,7 @@ pub fn interpret(resp: Result<Resp, ReadErr>, entered: bool, usable: bool) -> Ob
                     Err(e) => Obs::None(format!("200 with unreadable echo: {}", e)),
                 }
             } else {
-                Obs::Err { status: r.status, shape: error_shape_ok(&r.body), entered, usable }
+                Obs::Err { status: r.status, shape: error_shape_ok(&r.body), entered, usable, cls: error_class(&r.body) }
             }
         }
     }
